@@ -76,10 +76,11 @@ def fn_ranges(toks):
     return res
 
 def run_one(job):
-    unit, file, idx, new, desc, fname, line, pristine_text = job
+    unit, file, idx, new, desc, fname, line, pristine_text = job[:8]
+    repo = job[8] if len(job) > 8 else "/repo"
     scratch = tempfile.mkdtemp(prefix="vx-mut-", dir="/var/tmp")
     try:
-        subprocess.run(["rsync", "-a", "--exclude", "target", "--exclude", ".git", "/repo/", scratch + "/"], check=True)
+        subprocess.run(["rsync", "-a", "--exclude", "target", "--exclude", ".git", repo.rstrip("/") + "/", scratch + "/"], check=True)
         p = os.path.join(scratch, file)
         toks, trail = lex(open(p).read())
         toks[idx] = toks[idx].clone(text=new)
@@ -135,6 +136,38 @@ def run_one(job):
         return dict(file=file, line=line, fn=fname, mut=desc, outcome="survived", why="", target=target)
     finally:
         shutil.rmtree(scratch, ignore_errors=True)
+
+def sample(unit, repo, fnames, per_fn=1, limit=40, seed=0, jobs=8):
+    """mutants of the functions named in `fnames` (source names) of `unit`, extracted from `repo`; returns the result records"""
+    rnd = random.Random(seed)
+    saved = B.CACHE
+    B.CACHE = tempfile.mkdtemp(prefix="vx-mut-base-", dir="/var/tmp")
+    try:
+        base = B.build(unit, repo)
+    finally:
+        shutil.rmtree(B.CACHE, ignore_errors=True)
+        B.CACHE = saved
+    pristine_text = base["text"]
+    jobs_l = []
+    byfile = {}
+    for p in base["pieces"]:
+        byfile.setdefault(p.file, []).append((p.line0, p.line1))
+    for file, ranges in byfile.items():
+        toks, _ = lex(open(os.path.join(repo, file)).read())
+        for (name, bo, bc, line) in fn_ranges(toks):
+            if not any(l0 <= line <= l1 for l0, l1 in ranges) or name not in fnames:
+                continue
+            cand = sites(toks, bo + 1, bc)
+            rnd.shuffle(cand)
+            for (idx, new, desc) in cand[:per_fn]:
+                jobs_l.append((unit, file, idx, new, "%s @%s:%d" % (desc, file, toks[idx].line), name, toks[idx].line, pristine_text, repo))
+    rnd.shuffle(jobs_l)
+    jobs_l = jobs_l[:limit]
+    res = []
+    with concurrent.futures.ProcessPoolExecutor(max_workers=jobs) as ex:
+        for r in ex.map(run_one, jobs_l):
+            res.append(r)
+    return res
 
 def main():
     ap = argparse.ArgumentParser()
